@@ -762,7 +762,7 @@ var initDepth int
 
 // skipInit: packages whose initialiser cannot be interpreted and whose
 // globals are modelled or unused.
-var skipInit = map[string]bool{"errors": true, "internal/reflectlite": true, "runtime": true, "os": true, "syscall": true, "reflect": true, "sync": true, "internal/poll": true, "internal/godebug": true, "log": true, "net": true, "crypto/rand": true, "math/rand": true, "math/rand/v2": true}
+var skipInit = map[string]bool{"errors": true, "internal/reflectlite": true, "runtime": true, "os": true, "syscall": true, "reflect": true, "sync": true, "internal/poll": true, "internal/godebug": true, "log": true, "net": true, "net/http": true, "crypto/rand": true, "math/rand": true, "math/rand/v2": true}
 
 // seededGlobals: values of globals of packages whose initialiser is not run.
 var seededGlobals = map[string]func() value{
